@@ -539,8 +539,9 @@ def gen_histories(run):
         for n in (r.randrange(0, lo + 1), 3, lo // 3, lo // 3):
             h.send(fill(k, n), retry); k += 1
         h.tick(14 if retry == 0 else 30)
-        guaranteed = retry == -1            # re-queued at every time-out (silent peer): they keep travelling, so the
-        if retry != 0:                      # "exactly this group in one datagram" clause is not judged in that history
+        guaranteed = retry != 0             # with a retry mode and a silent peer the re-sends compete with what is queued (and
+        if retry != 0:                      # guaranteed messages are re-queued at every time-out): the "exactly this group in one
+                                            # datagram" clause is judged in the retry-NONE histories only
             h.tick(1, dt=T + 3000)          # everything un-acked has timed out: the re-send store is empty again
             h.tick(2)
             retry = 0
@@ -732,7 +733,7 @@ def net_history(run, mtu, frames, seed_label, mtu2=None):
     try:
         for f in range(frames):
             if f == change_at:
-                for _ in range(r.choice([40, 150])):
+                for _ in range(r.choice([40, 100])):
                     who = r.choice(["client", "server"])
                     n = r.choice([0, 1, 3, 30, mp // 3, mp // 2, mp - 1, mp])
                     retry = r.choice([0, 0, 1, -1])
